@@ -115,6 +115,11 @@ CHECKS = {
         technique="TLA+ semantics of the llvm dialect's integer / branch / stack-slot ops (Machine.tla LLVMEval, poison = no obligation) executed by TLC to judge the results of natively executed code produced by the real backend (LLVM verifier + MCJIT via llvmlite)",
         text="Generated llvm-dialect integer functions (binary ops with nsw/nuw/exact/disjoint flags, ten icmp predicates, zext/sext/trunc with nneg/nsw/nuw, select, alloca/store/load, diamonds with block arguments incl. both edges into one block, counted loops with loop-carried block arguments; i1-i64) are translated by xdsl.backend.llvm, parsed and verified by LLVM (rejection = violation), JIT-compiled and called on boundary/random arguments in a forked child; TLC runs the function under Machine.tla and compares every defined result; a corrupted-result negative control must be rejected.",
         note="Trusted: LLVMEval in Machine.tla (built on BV.tla, self-checked in BVCheck.tla); llvmlite's LLVM; the host CPU. Floats, vectors, calls, GEP, globals are not generated. One open finding (cond_br with both edges to one block)."),
+    "C21": dict(
+        category="translation_validation", design_ref="DESIGN.md §4 C21",
+        technique="TLA+ x86-64 instruction-subset model (X86.tla) executed by TLC on the parsed assembly of the real pipeline next to the source under Machine.tla, with SysV clauses (rax, callee-saved registers, rsp); the same assembly is assembled by gcc and run natively through a register-checking trampoline whose observations must equal X86.tla's predictions",
+        text="Generated i64 functions (1-6 arguments, constants, add / mul chains, argument reuse, a third with many simultaneously live values) are compiled by the documented x86 pipeline; TLC runs source and emitted instructions on boundary/random argument vectors and checks the result in rax and that rbx, rbp, r12-r15 and rsp are restored at ret; every run is also executed natively (forked child) and the trampoline's record of rax, callee-saved registers and stack-pointer drift is compared with the model by TLC.",
+        note="Trusted: X86.tla (cross-checked against the CPU on every run), Machine.tla, the assembly parser and the trampoline. Only arith.constant/addi/muli on i64 are lowered by the backend; refused programs are outside the property."),
     "C19": dict(
         category="exploration", design_ref="DESIGN.md §3.7, §4 C19",
         technique="TLA+ register-file execution of allocated blocks (RegAlloc.tla: the register file remembers which value each register holds) evaluated by TLC on the assignments produced by the real allocators",
